@@ -85,7 +85,15 @@ def _run_one(arg: Any) -> Dict[str, Any]:
     mod = importlib.import_module(modname)
     try:
         res = mod.run_case(case)
-    except Exception as e:  # harness error: never a VIOLATION
+    except Exception as e:
+        if _is_library_frame(e):
+            # an exception raised INSIDE the library that the check did not anticipate: a violation of the case's
+            # clause ("never raises on valid input"), reported like any other and reproduced in a fresh process
+            kind = case.get("kind", "case") if isinstance(case, dict) else "case"
+            v = exception_violation(e, f"uncaught|{kind}")
+            v["msg"] += "\n" + "".join(traceback.format_exception(type(e), e, e.__traceback__))[-1500:]
+            return {"case": case, "violations": [v], "nontrivial": True, "outcome": "raises", "steps": 1, "skipped": None}
+        # anything else is a harness error: never a VIOLATION
         return {
             "case": case,
             "harness_error": "".join(
